@@ -93,7 +93,10 @@ def bad_gate(kind):
             "duplicate": lambda: Gate("CNOT", 1, control=1),
             "too-many-targets": lambda: Gate("H", [0, 1]),
             "too-few-targets": lambda: Gate("SWAP", [0]),
-            "string-index": lambda: Gate("H", "0")}[kind]
+            "string-index": lambda: Gate("H", "0"),
+            "controlled-too-many-targets": lambda: Gate("CNOT", [1, 2], control=0),
+            "crot-too-many-targets": lambda: Gate("CRZ", [0, 1], control=3, parameter=0.5),
+            "control-on-uncontrolled": lambda: Gate("H", 0, control=1)}[kind]
 
 
 _sim = {}
@@ -288,6 +291,119 @@ def corrupt(job, rng):
     return res
 
 
+# ------------------------------------------------------------------------------------------------------
+# MakeGate: constructor arguments enumerated by TLC (spec/C11Gate.tla), accept/reject decided by the spec
+# ------------------------------------------------------------------------------------------------------
+def py_index(x):
+    import numpy as np
+    v, ty = x["v"], x["ty"]
+    return {"int": lambda: int(v), "float": lambda: float(v), "str": lambda: str(v), "bool": lambda: bool(v),
+            "npint": lambda: np.int64(v)}[ty]()
+
+
+def py_container(xs, kind):
+    import numpy as np
+    vals = [py_index(x) for x in xs]
+    if kind == "scalar" and len(vals) == 1:
+        return vals[0]
+    if kind == "tuple":
+        return tuple(vals)
+    if kind == "ndarray" and all(x["ty"] == "int" for x in xs):
+        return np.array(vals, dtype=np.int32)
+    return vals
+
+
+def make_gate_job(cand):
+    """Call Gate(name, targets, controls) with the candidate's arguments; record what happened."""
+    from tangelo.linq import Gate, Circuit
+    job = {"cand": cand, "raised": False, "out": {"name": "", "t": [], "c": []}, "dump": dict(DEAD)}
+    try:
+        kw = {"control": py_container(cand["c"], cand["ck"])} if cand["hasc"] else {}
+        if cand["name"] in PARAM_GATES:
+            kw["parameter"] = 0.5
+        g = Gate(cand["name"], py_container(cand["t"], cand["tk"]), **kw)
+    except Exception:
+        job["raised"] = True
+        return job
+    job["out"] = {"name": str(g.name), "t": [int(x) for x in g.target], "c": [int(x) for x in (g.control or [])]}
+    try:
+        job["dump"] = dump(Circuit([g]))
+    except Exception as e:
+        job["dump"] = dict(DEAD, error=type(e).__name__)
+    return job
+
+
+def cand_class(cand):
+    from_sets = "custom"
+    if cand["name"] in ("XX", "SWAP", "CSWAP"):
+        from_sets = "two-target"
+    elif cand["name"] not in ("MEASURE", "POTATO", "CPOTATO", "CH"):
+        from_sets = "one-target"
+    sp = sorted({x["ty"] for x in cand["t"] + cand["c"]} - {"int"}) + (["negative"] if any(x["v"] < 0 for x in cand["t"] + cand["c"]) else [])
+    return "%s/%dtargets/%s%s" % (from_sets, len(cand["t"]), ("%dcontrols" % len(cand["c"])) if cand["hasc"] else "nocontrol",
+                                  ("/" + "+".join(sp)) if sp else "")
+
+
+def make_gate_part(chk, rng):
+    parts = ["ints", "special", "containers"]
+    res = tlc.run_many([dict(module="C11Gate", name="c11/gate_" + p, workers=2, timeout=3600,
+                             cfg="CONSTANTS M = %d\nPart = \"%s\"\nINIT Init\nNEXT Next\nINVARIANT AcceptedIsWellFormed\n"
+                                 "INVARIANT RejectedIsIllFormed\nINVARIANT Export\n" % (M, p)) for p in parts], max_parallel=3)
+    jobs = []
+    for p, r in zip(parts, res):
+        if not r.ok:
+            raise tlc.TLCError("C11Gate (%s): specification inconsistent: %s\n%s" % (p, r.violated, r.out[-2000:]))
+        chk.add_tlc(r, "G_makegate_" + p)
+        cands = r.prints("CAND")
+        chk.part("G_makegate_" + p, candidates=len(cands))
+        for cd in cands:
+            job = make_gate_job(cd)
+            job["id"] = len(jobs) + 1
+            jobs.append(job)
+    if len(jobs) < 1000:
+        raise tlc.TLCError("C11Gate exported too few candidates (%d)" % len(jobs))
+    # negative controls: outcome flipped
+    ctl = []
+    for job in jobs[:: max(1, len(jobs) // 60)]:
+        c = copy.deepcopy(job)
+        c["raised"] = not c["raised"]
+        if c["raised"]:
+            c["dump"] = dict(DEAD)
+        else:
+            g = {"name": c["cand"]["name"], "t": [x["v"] for x in c["cand"]["t"]], "c": [x["v"] for x in c["cand"]["c"]] if c["cand"]["hasc"] else [],
+                 "k": 0, "v": False, "s": "", "pt": "none", "p": 0}
+            c["out"] = {"name": g["name"], "t": g["t"], "c": g["c"]}
+            c["dump"] = dict(DEAD, live=True, gates=[g], size=1, width=max(g["t"] + g["c"] + [-1]) + 1,
+                             counts=[[g["name"], 1]], cnq=[[len(g["t"]) + len(g["c"]), 1]], depth=1)
+        c["id"] = 10 ** 7 + len(ctl)
+        c["origin"] = job["id"]
+        ctl.append(c)
+    verdicts, results = tlc.judge("C11GateTrace", jobs + ctl, "c11/gatev", {"M": M}, max_parallel=min(PAR, 8), timeout=3600)
+    for r in results:
+        chk.add_tlc(r)
+    stat = {"accepted": 0, "raised": 0, "failing": 0}
+    for job in jobs:
+        chk.add_traces(1, "makegate")
+        stat["raised" if job["raised"] else "accepted"] += 1
+        cl = json.loads(verdicts[job["id"]])
+        if cl:
+            stat["failing"] += 1
+        for clause in cl:
+            chk.violation("Gate():%s:%s" % (clause, cand_class(job["cand"])),
+                          "Gate(%r, targets=%s, controls=%s): clause '%s' (raised=%s)" % (
+                              job["cand"]["name"], [(x["v"], x["ty"]) for x in job["cand"]["t"]],
+                              [(x["v"], x["ty"]) for x in job["cand"]["c"]] if job["cand"]["hasc"] else None, clause, job["raised"]),
+                          {"makegate": job["cand"], "clause": clause})
+    clean_ctl = [c for c in ctl if not json.loads(verdicts[c["origin"]])]
+    # a flipped outcome must be rejected unless the spec leaves the candidate open ("either" is not judged)
+    accepted = [c["origin"] for c in clean_ctl if not json.loads(verdicts[c["id"]])]
+    undecided = len(accepted)
+    chk.part("makegate", **stat, negative_controls=len(clean_ctl), controls_on_undocumented_candidates=undecided)
+    if clean_ctl and undecided > len(clean_ctl) // 2:
+        raise tlc.TLCError("binding failure: flipped MakeGate outcomes accepted by C11GateTrace: %s" % accepted[:10])
+    chk.sample({"makegate_candidate": jobs[len(jobs) // 3]["cand"], "raised": jobs[len(jobs) // 3]["raised"]})
+
+
 def judge_and_report(chk, jobs, info, part):
     """jobs: [{id, steps}] ; info: id -> replayable case. Returns verdict map."""
     verdicts, results = tlc.judge("C11Trace", jobs, "c11/" + part, {"M": M}, max_parallel=PAR, timeout=7200, heap="3g",
@@ -314,6 +430,7 @@ def judge_and_report(chk, jobs, info, part):
 def run(chk):
     rng = random.Random(chk.seed)
     quick = chk.quick
+    make_gate_part(chk, rng)
     runs = plan(chk)
     results = tlc.run_many([r[2] for r in runs], max_parallel=min(PAR, 6))
     jobs, info = [], {}
@@ -437,6 +554,12 @@ def harvest(chk):
 
 def replay(chk, rec):
     case = rec["case"]
+    if "makegate" in case:
+        job = dict(make_gate_job(case["makegate"]), id=1)
+        v, _ = tlc.judge("C11GateTrace", [job], "c11/replay", {"M": M})
+        print("candidate:", json.dumps(case["makegate"]), " raised:", job["raised"], " result:", job["out"])
+        print("TLC verdict (failing clauses):", v[1])
+        return case.get("clause") not in json.loads(v[1])
     if "harvest_test" in case:
         # re-run the repository test under the wrappers and re-judge the events it produces
         traces, tail = harvest_events([os.path.join(check.REPO, case["harvest_test"])], "replay")
